@@ -366,7 +366,7 @@ impl<'p> Machine<'p> {
         self.prog.labels.get(l).copied().ok_or_else(|| Stop::Viol(ViolationKind::WildJump, format!("jump to undefined label {l}")))
     }
 
-    fn check_encodable(i: &Ins) -> Option<String> {
+    pub fn check_encodable(i: &Ins) -> Option<String> {
         match i {
             Ins::Mov(Opnd::Mem(..), Opnd::Imm(v)) | Ins::Add(Opnd::Mem(..), Opnd::Imm(v)) | Ins::Cmp(Opnd::Mem(..), Opnd::Imm(v)) | Ins::Sub(Opnd::Mem(..), Opnd::Imm(v)) => {
                 if i32::try_from(*v).is_err() {
